@@ -125,6 +125,9 @@ func accessesOf(kind opKind, op *Op, self *Thread) []access {
 	switch kind {
 	case opSend:
 		if op.ch != nil && !isNilChan(op.ch) {
+			if op.ch.isClosed() {
+				a[0].write = true // it will panic: ends the program like an exit, dependent with everything
+			}
 			a = append(a, access{op.ch.label() + ".SQ", true}, access{op.ch.label() + ".RD", true})
 			if (op.prepared && op.partner != nil) || (!op.prepared && self != nil && op.ch.npending(self, false) > 0) {
 				a = append(a, access{op.ch.label() + ".RQ", true})
@@ -139,6 +142,9 @@ func accessesOf(kind opKind, op *Op, self *Thread) []access {
 		}
 	case opClose:
 		l := op.ch.label()
+		if op.ch.isClosed() && op.desc != "len" {
+			a[0].write = true // close of a closed channel panics
+		}
 		a = append(a, access{l + ".SQ", true}, access{l + ".RQ", true}, access{l + ".RD", true})
 	case opSelect:
 		for i, c := range op.cases {
@@ -146,9 +152,17 @@ func accessesOf(kind opKind, op *Op, self *Thread) []access {
 				continue
 			}
 			if op.isSendCase(i) {
+				if c.isClosed() {
+					a[0].write = true
+				}
 				a = append(a, access{c.label() + ".SQ", true}, access{c.label() + ".RD", true})
 				if self != nil && c.npending(self, false) > 0 {
 					a = append(a, access{c.label() + ".RQ", true})
+				} else {
+					// a send case is only supported in the non-blocking form: whether there is room
+					// (send) or not (default) depends on the receives performed so far, so the
+					// operation READS the receive side and is dependent with every receive
+					a = append(a, access{c.label() + ".RQ", false})
 				}
 				continue
 			}
@@ -596,7 +610,7 @@ func (s *Sched) finalRaces() {
 	}
 }
 
-var DebugRaceAll bool
+var DebugRaceAll = os.Getenv("VS_DEBUG_RACE") != ""
 
 // Engine variants (for measurements; the defaults are what conformance validates)
 var (
@@ -842,3 +856,28 @@ func (s *Sched) ScheduleString(max int) string {
 
 // StepCount is the number of visible steps the execution performed.
 func (s *Sched) StepCount() int { return len(s.steps) }
+
+// Buffered channels, two models of the same semantics:
+//   - hand-off (default): a send to a buffered channel with a thread pending at its receive
+//     delivers directly, a receive from a full buffer lets a pending sender in - one step
+//     instead of two. Indistinguishable for programs that only use blocking operations.
+//   - pure (PureBuf): every send goes through the buffer, every receive takes from it, each a
+//     step of its own thread. Needed as soon as the program POLLS a buffered channel (select with
+//     default, len): a poll can observe the states the hand-off skips ("pending" in this model
+//     does not mean "parked" in the Go runtime).
+// The first poll of a buffered channel aborts the execution with outcome "restart:..." and the
+// explorers start over in the pure model (deterministically: the model is a function of the
+// program, recorded with every replay file).
+var (
+	PureBuf  = os.Getenv("VS_PURE_BUF") != ""
+	NeedPure bool
+)
+
+// restartPure: true when the execution asked for the pure model; switches the model.
+func restartPure(s *Sched) bool {
+	if NeedPure && !PureBuf && len(s.Outcome) >= 8 && s.Outcome[:8] == "restart:" {
+		PureBuf = true
+		return true
+	}
+	return false
+}
